@@ -51,6 +51,8 @@ THEOREMS = [
     "SynKit.RxnNorm.standardize_perm",
     "SynKit.RxnNorm.standardize_rewrite",
     "SynKit.RxnNorm.C09.fullStatement",
+    "SynKit.RxnNorm.canonRxnWith_unpaired_no_collision",
+    "SynKit.RxnNorm.canonRxnWith_unpaired_equiv",
 ]
 
 NODE_KEYS = ["element", "aromatic", "hcount", "charge", "neighbors", "atom_map"]
@@ -341,9 +343,13 @@ def canon_case(ctx, backend, src, rs, n_variants, tag="corpus"):
     model_diff = None
     if "error" in model:
         ctx.count("canon:model_error:" + model["error"])
-        # `collision` = relabelling not injective on the product: outside the model (NetworkX merges nodes);
-        # only the specification gates below speak there
-        if not broken and model["error"] != "collision":
+        # the model answers an error (ValueError / KeyError / collision) where the implementation returned a
+        # result.  Since the repair of F23 (product atoms without a reactant partner get fresh ids, mirrored by
+        # `unpairedPairs` in the model) a `collision` cannot arise for well-formed graphs and an injective
+        # back-end labelling (Lean: canonRxnWith_unpaired_no_collision), so it is a divergence like any other
+        # error; only a back-end labelling that is NOT injective (two reactant atoms with one canonical id)
+        # can still produce it, and that is reported here too.
+        if not broken:
             model_diff = {"model": model, "impl": out}
     else:
         impl_r = norm_graph_json(enc(cn.canonical_reactant_graph))
